@@ -95,19 +95,33 @@ fn gen_history_c11(rng: &mut Rng, tier: Tier) -> Case {
     }
     let nb = rng.range(1, if tier == Tier::Thorough { 10 } else { 6 });
     let mut hist = Vec::new();
+    // collision mode (one history in eight): standing clock and a repeated id, so a roll or a restart asks for the
+    // name of an existing member (exclusive create fails with a retryable error; nothing is created twice)
+    let collide = rng.chance(1, 8);
+    let cid = rng.next() as u32;
+    if collide && rng.bool() && !dir.iter().any(|(m, _)| *m == ref_name(&cfg, &now, cid)) && members < cfg.max_files {
+        dir.push((ref_name(&cfg, &now, cid), gen_event(rng, &sep, false)));
+    }
     for i in 0..nb {
-        if i > 0 || rng.bool() {
+        if collide {
+            if i > 0 && rng.chance(1, 4) {
+                let kind = *rng.pick(&[1u64, 2, 3]);
+                now = advance(rng, cfg.roll_by, now, kind);
+            }
+        } else if i > 0 || rng.bool() {
             let kind = *rng.pick(&[1u64, 1, 2, 2, 3, 3, 4, 5, 6, 7]);
             now = advance(rng, cfg.roll_by, now, kind);
         }
         let nev = rng.range(1, 3);
         let ev: Vec<Vec<u8>> = (0..nev).map(|_| gen_event(&mut rng.fork(), &sep, false)).collect();
         let pre: Vec<Vec<u8>> = if rng.chance(1, 8) { (0..rng.range(1, 2)).map(|_| gen_event(&mut rng.fork(), &sep, false)).collect() } else { vec![] };
-        hist.push(Step::Batch { now, id: rng.next() as u32, pre, ev });
-        if rng.chance(1, 5) {
-            hist.push(Step::Retry { now, id: rng.next() as u32 });
+        let id = if collide && rng.chance(4, 5) { cid } else { rng.next() as u32 };
+        hist.push(Step::Batch { now, id, pre, ev });
+        if rng.chance(1, 5) || (collide && rng.bool()) {
+            let id = if collide && rng.chance(4, 5) { cid } else { rng.next() as u32 };
+            hist.push(Step::Retry { now, id });
         }
-        if rng.chance(1, 5) {
+        if rng.chance(1, 5) || (collide && rng.chance(1, 3)) {
             hist.push(Step::Restart);
         }
     }
